@@ -78,7 +78,19 @@ def front_end():
 def exc_sig(e):
     """core.exc_signature with the numbers of pegen's generated helper rules removed (they shift
     whenever the grammar is edited)."""
-    return re.sub(r"_(tmp|loop\d|gather)_\d+", r"_\1", core.exc_signature(e))
+    sig = re.sub(r"_(tmp|loop\d|gather)_\d+", r"_\1", core.exc_signature(e))
+    import traceback
+
+    tb = traceback.extract_tb(e.__traceback__)
+    if tb and tb[-1].filename.endswith(("tokenize.py", "pegen/tokenizer.py")):
+        # raised by the tokenizer: which grammar rule happened to ask for the next token is noise
+        sig = f"{type(e).__name__}@tokenizer"
+    if sig.endswith((":compileTranslatedTree", ":astToSource")):
+        # raised by a builtin (compile / ast.unparse) on the tree Scenic produced: the frame says
+        # nothing about the cause, the message does
+        msg = re.sub(r"<[^>]*>|0x[0-9a-f]+|\d+", "N", str(e))
+        sig += ":" + re.sub(r"'[^']*'", "Q", msg)[:50]
+    return sig
 
 
 def run_pipeline(src, filename="<string>"):
@@ -582,9 +594,52 @@ def judge_doc(case):
     raise core.HarnessError("unknown doc case " + kind)
 
 
+def judge_plain_text(case):
+    """A literal input text (found by the coverage-guided campaign)."""
+    out = core.Outcome()
+    src = case["src"]
+    out.cls("text")
+    out.nontrivial = python_tokenizer_accepts(src)
+    judge_text(src, out)
+    return out
+
+
+def minimise_text(src, sig, budget_s=30):
+    """Greedy line- then character-level reduction keeping the failure signature."""
+    t_end = time.time() + budget_s
+
+    def fails(t):
+        o = core.Outcome()
+        try:
+            judge_text(t, o)
+        except core.CaseTimeout:
+            raise
+        return any(s_ == sig for s_, _ in o.failures)
+
+    for unit in ("line", "char"):
+        changed = True
+        while changed and time.time() < t_end:
+            changed = False
+            parts = src.split("\n") if unit == "line" else list(src)
+            if unit == "char" and len(parts) > 400:
+                break
+            k = 0
+            while k < len(parts) and time.time() < t_end:
+                cand = parts[:k] + parts[k + 1:]
+                text = ("\n" if unit == "line" else "").join(cand)
+                if text != src and fails(text):
+                    parts, src, changed = cand, text, True
+                else:
+                    k += 1
+    return src
+
+
 def judge(case):
-    if case.get("kind", "mutant") == "mutant":
+    kind = case.get("kind", "mutant")
+    if kind == "mutant":
         return judge_mutant(case)
+    if kind == "text":
+        return judge_plain_text(case)
     return judge_doc(case)
 
 
@@ -598,8 +653,10 @@ def replay(case):
 # ---------------------------------------------------------------------------------------------
 
 def mutation():
-    return st.tuples(st.sampled_from(c10_mut.KINDS), st.integers(0, 4000), st.integers(0, 4000),
-                     st.integers(0, 4000)).map(list)
+    # statement-inserting kinds get three times the weight of the others
+    kinds = c10_mut.KINDS + ["move", "moveown", "stmt"] * 2
+    return st.tuples(st.sampled_from(kinds), st.integers(0, 4000), st.integers(0, 4000),
+                     st.integers(0, 8000)).map(list)
 
 
 def cases():
@@ -614,12 +671,30 @@ def cases():
     })
 
 
+FIXED_TEXTS = [
+    "x = (\n", "x = [1,\n", "x = 'abc\n", 'x = """abc\n', "if x:\n        y = 1\n    z = 2\n",
+    "if x:\n\ty = 1\n        z = 2\n", "x = 1 \\", "\\", "", "# only a comment", "\ufeffx = 1\n",
+    "  x = 1\n", "x = 1\n  y = 2\n", "x = $\n", "x = 1 +\n", "def f(:\n", "ego = new Object at\n",
+    "new Object at (1, 2\n", "require\n", "behavior B():\nwait\n", "x = f'{'\n", "x = )\n",
+    "class C:\n", "try:\n    pass\n", "x = 1;;\n", "\f\n", "x = 1\r\ny = (\r\n",
+]
+
+
 def doc_cases():
     out = []
     for f in c10_docs.forms():
         out.append(dict(f, kind="doc-form"))
     for label, src, _, where in precedence_cases():
         out.append({"kind": "doc-precedence", "label": label})
+    # a fixed handful of elementary malformed inputs (every one must be a located syntax error)
+    for text in FIXED_TEXTS:
+        out.append({"kind": "text", "src": text})
+    # complete examples (code blocks) of the reference pages: they must compile as they stand
+    for p in corpus.scenic_programs():
+        if p["kind"].startswith("doc-block") and "/reference/" in p["id"] \
+                and "..." not in p["src"] and "{" not in p["src"].replace("{}", ""):
+            out.append({"kind": "doc-form", "doc": "example", "line": p["id"],
+                        "heading": "code block " + p["id"], "mode": 0, "source": p["src"]})
     return out
 
 
@@ -628,13 +703,6 @@ def selfcheck():
     # the oracle's own notion of "lines" and of an acceptable outcome, on hand-made inputs
     if count_lines("a\nb") != 2 or count_lines("a\n") != 2 or count_lines("") != 1:
         raise core.HarnessError("c10 count_lines")
-    o = core.Outcome()
-    if judge_text("x = (\n", o) != "syntax-error" or o.failures:
-        raise core.HarnessError("c10 selfcheck: unterminated bracket must be a located error: "
-                                + repr(o.failures))
-    o = core.Outcome()
-    if judge_text("ego = new Object at (1, 2)\n", o) != "ok" or o.failures:
-        raise core.HarnessError("c10 selfcheck: valid program")
     if nesting_estimate("((((x))))") < 4:
         raise core.HarnessError("c10 nesting")
 
@@ -646,17 +714,64 @@ def plan(tier, seed, jobs):
     shards = [{"kind": "mutants", "seed": seed * 1000 + k, "n": max(50, total // nsh)}
               for k in range(nsh)]
     shards.append({"kind": "docs"})
+    if tier == "thorough":
+        shards.insert(0, {"kind": "atheris", "seconds": 600, "seed": seed})
     return shards
+
+
+def run_atheris(shard, col):
+    import shutil
+    import subprocess
+
+    deps = os.path.join(core.VERIF, ".deps")
+    if not os.path.isdir(os.path.join(deps, "atheris")):
+        col.extra["atheris_skipped_not_installed"] = 1
+        return
+    outdir = f"/var/tmp/vf-c10-atheris-{os.getpid()}"
+    shutil.rmtree(outdir, ignore_errors=True)
+    env = dict(os.environ, PYTHONPATH=core.VERIF + os.pathsep + os.environ.get("PYTHONPATH", ""))
+    try:
+        try:
+            subprocess.run([sys.executable, "-m", "vf.c10_atheris", outdir,
+                            str(shard["seconds"]), str(shard["seed"])],
+                           env=env, cwd=core.VERIF, timeout=shard["seconds"] + 600,
+                           stdout=subprocess.DEVNULL, stderr=subprocess.DEVNULL)
+        except subprocess.TimeoutExpired:
+            col.extra["atheris_timeout"] = 1
+        try:
+            with open(os.path.join(outdir, "stats.json")) as f:
+                col.extra["atheris_execs"] = json.load(f).get("execs", 0)
+        except (OSError, ValueError):
+            col.extra["atheris_execs"] = 0
+        if os.path.isdir(outdir):
+            for fn in sorted(os.listdir(outdir)):
+                if not fn.startswith("crash-"):
+                    continue
+                with open(os.path.join(outdir, fn)) as f:
+                    doc = json.load(f)
+                try:
+                    with core.time_limit(120):
+                        src = minimise_text(doc["src"], doc["signature"])
+                        case = {"kind": "text", "src": src}
+                        out = judge_plain_text(case)
+                except core.CaseTimeout:
+                    case = {"kind": "text", "src": doc["src"]}
+                    out = core.Outcome(inconclusive=True, classes=["timeout"])
+                col.add(case, out)
+    finally:
+        shutil.rmtree(outdir, ignore_errors=True)
 
 
 def run_shard(shard, tier):
     selfcheck()
     col = core.Collector(PROP, shard["id"])
-    if shard["kind"] == "docs":
+    if shard["kind"] == "atheris":
+        run_atheris(shard, col)
+    elif shard["kind"] == "docs":
         for case in doc_cases():
             try:
                 with core.time_limit(60):
-                    out = judge_doc(case)
+                    out = judge(case)
             except core.CaseTimeout:
                 out = core.Outcome(inconclusive=True, classes=["timeout"])
             col.add(case, out)
